@@ -28,6 +28,69 @@ def run_check(pid, repo, tier="quick"):
     return r.returncode, r.stdout
 
 
+def load_items(include_seeded=True):
+    items = []
+    for p in sorted(glob.glob(os.path.join(VERIF, "psa", "mutants", "*.json"))):
+        for m in json.load(open(p)):
+            items.append(("hand", m))
+    if include_seeded:
+        for d in sorted(glob.glob(os.path.join(VERIF, "seeded", "*"))):
+            meta = os.path.join(d, "meta.json")
+            if os.path.exists(meta):
+                m = json.load(open(meta))
+                m["patch"] = os.path.join(d, "patch.diff")
+                m["name"] = os.path.basename(d)
+                items.append(("seeded", m))
+    return items
+
+
+def apply_item(m, repo):
+    """returns None on success, else a reason for skipping"""
+    if "patch" in m:
+        r = subprocess.run(["git", "apply", "--unsafe-paths", "--directory=" + repo, m["patch"]], cwd="/", stdout=subprocess.PIPE, stderr=subprocess.STDOUT, text=True)
+        if r.returncode != 0:
+            r = subprocess.run(["patch", "-p1", "-d", repo, "-i", m["patch"]], stdout=subprocess.PIPE, stderr=subprocess.STDOUT, text=True)
+        return None if r.returncode == 0 else "patch does not apply"
+    fp = os.path.join(repo, m["file"])
+    s = open(fp).read()
+    if s.count(m["old"]) < 1:
+        return "anchor text not found"
+    s = s.replace(m["old"], m["new"], m.get("count", 1))
+    for e2 in m.get("edits", []):
+        if e2["old"] not in s:
+            return "anchor text not found"
+        s = s.replace(e2["old"], e2["new"], 1)
+    open(fp, "w").write(s)
+    return None
+
+
+def replay(pid):
+    """sensitivity replay for one property: every hand mutant and seeded change of that property against the quick check"""
+    out = []
+    for kind, m in load_items():
+        if m["property"] != pid:
+            continue
+        d = scratch_copy()
+        try:
+            repo = d + "/repo"
+            why = apply_item(m, repo)
+            if why:
+                out.append({"name": m["name"], "kind": kind, "outcome": "skipped (%s)" % why})
+                continue
+            rc, o = run_check(pid, repo)
+            keys = [l.strip().split(" at=")[0].split(" key=")[-1] for l in o.splitlines() if l.strip().startswith("rule=")]
+            if rc == 1 and keys and "cargo check of /repo failed" not in o:
+                outcome = "FALSE-ALARM" if m.get("benign") else "detected"
+            elif rc == 0:
+                outcome = "silent (as it must be)" if m.get("benign") else "missed"
+            else:
+                outcome = "error"
+            out.append({"name": m["name"], "kind": kind, "outcome": outcome, "reported_by": keys[:3]})
+        finally:
+            shutil.rmtree(d, ignore_errors=True)
+    return out
+
+
 def main():
     args = sys.argv[1:]
     only = args[args.index("--only") + 1] if "--only" in args else None
